@@ -1,6 +1,7 @@
 # unit -> properties it serves
 UNITS = {
     "names": ["C16"],
+    "wire_decode": ["C03", "C16"],
 }
 # property -> clauses of the statement that no contract decides (reported in the evidence)
 UNDECIDED_CLAUSES = {
